@@ -14,6 +14,7 @@ KINDS = {
     "array": "uint8 a[2];", "array2d": "uint8 a[2][2];", "array3d": "uint16 a[2][3][2];", "structarray2d": "inner a[2][2];", "enumarray2d": "E8 a[3][2];", "nested": "struct { uint8 x; uint8 y; } a;", "anon": "struct { uint8 x; };",
     "anon2": "uint8 k; struct { uint8 x; uint8 pad[2]; }; uint8 t;", "anonunion": "union { uint16 w; uint8 h[2]; };",
     "union": "union { uint16 w; uint8 h[2]; } a;", "chararray": "char a[4];", "wchararray": "wchar a[2];", "int": "uint32 a;",
+    "lead_array": "uint8 k; uint8 a[2]; inner n;", "lead_2d": "uint32 k; uint8 a[2][2];",
     "enum": "E8 a;", "pointer": "uint8 *a;", "structarray": "inner a[2];", "enumarray": "E8 a[2];", "float": "float a;", "dynarray": "uint8 n; uint8 a[n];",
 }
 PRE = "struct inner { uint8 ia; uint16 ib; }; enum E8 : uint8 { A = 1 };\n"
@@ -121,6 +122,15 @@ def run(tier, seed):
                     T = cs.T
                     pristine = repr_value(T())
                     dup = aliases(T())
+                    # ... and when the instance is built from one positional value (the remaining members take defaults)
+                    first = T.__fields__[0]
+                    if container == "struct" and len(T.__fields__) > 1 and first.type.__name__ in ("uint8", "uint32") and not first.bits:
+                        p1 = T(1)
+                        mutate(p1)
+                        p2 = T(2)
+                        setattr(p2, first._name, 0)
+                        if repr_value(p2) != pristine:
+                            dup = [*dup, f"T(2) after mutating T(1): {repr_value(p2)}"]
                     x = T()
                     m = mutate(x)
                     again = repr_value(T())
@@ -167,7 +177,7 @@ def run(tier, seed):
         now_b = cs_sig(b, sample)
         iso.case((trial, tuple(ops)), now_b == base_b, observed="signature of the untouched cstruct object changed" if now_b != base_b else None, inputs={"ops_on_other_object": ops})
     iso.add_to(rep)
-    pure = Bounded("parsing-is-a-function-of-type-and-bytes", "seeded histories (parse / failed parse / dump / construct / mutate results) followed by a probe parse, compared with the probe on a fresh library")
+    pure = Bounded("parsing-is-a-function-of-type-and-bytes", "seeded histories (parse / failed parse / dump / failed dump / construct / mutate results / byte order switched there and back / scalar types used) followed by a probe parse and dump, compared with the probe on a fresh library")
     text = PRE + "struct P { uint8 n; uint16 d[n * 2 - 1]; inner i[2]; E8 e; char s[]; uint8 bf:3; uint8 bg:5; };"
     for trial in range(80 if tier == "quick" else 800):
         cs = cstruct()
@@ -176,9 +186,11 @@ def run(tier, seed):
         fresh = cstruct()
         fresh.load(text, compiled=bool(trial % 2))
         want = repr_value(fresh.P(probe))
+        want_dump = fresh.P(probe).dumps()
+        want_i24 = (repr_value(fresh.int24(b"\x01\x02\x83")), fresh.uint48.dumps(0x010203040506))
         hist = []
         for _ in range(rnd.randint(0, 10)):
-            op = rnd.choice(["parse", "short", "dump", "mutate", "default", "other-endian-cs"])
+            op = rnd.choice(["parse", "short", "dump", "mutate", "default", "other-endian-cs", "failed-dump", "endian-there-and-back", "scalar-use"])
             hist.append(op)
             try:
                 if op == "parse":
@@ -197,10 +209,35 @@ def run(tier, seed):
                     o = cstruct(endian=">")
                     o.load(text)
                     o.P(probe)
+                elif op == "failed-dump":
+                    # a dump that fails after part of the value was written (wrong-length static array / out-of-range scalar)
+                    v = cs.P(probe)
+                    v.i = v.i[:1]
+                    v.e = cs.E8(1)
+                    v.dumps()
+                elif op == "endian-there-and-back":
+                    cs.endian = ">"
+                    try:
+                        cs.P(probe)
+                        cs.int24(b"\x01\x02\x03")
+                        cs.uint48.dumps(77)
+                    finally:
+                        cs.endian = "<"
+                elif op == "scalar-use":
+                    cs.int24(b"\x01\x02\x03")
+                    cs.uint48.dumps(5)
+                    cs.uint128(bytes(16))
             except Exception:  # noqa: BLE001
                 pass
         got = repr_value(cs.P(probe))
-        pure.case((trial, tuple(hist)), got == want, observed=f"{got} expected {want}", inputs={"history": hist, "probe": probe.hex()})
+        try:
+            got_dump = cs.P(probe).dumps()
+            got_i24 = (repr_value(cs.int24(b"\x01\x02\x83")), cs.uint48.dumps(0x010203040506))
+        except Exception as e:  # noqa: BLE001
+            got_dump, got_i24 = f"raises {type(e).__name__}", None
+        ok = got == want and got_dump == want_dump and got_i24 == want_i24
+        pure.case((trial, tuple(hist)), ok, observed=f"parse {got} expected {want}; dump {got_dump!r} expected {want_dump!r}; int24/uint48 {got_i24} expected {want_i24}"[:600],
+                  inputs={"history": hist, "probe": probe.hex()})
     pure.add_to(rep)
     rep.extra["rule"] = "field kinds x containers x reader for default freshness; seeded operation histories for independence and purity"
     rep.extra["explanation"] = (
